@@ -430,6 +430,22 @@ def run_property(pid, tier, flags, only, scratch, t0, seed, evidence_path):
                 expanded.append(e)
         else:
             expanded.append(g)
+    # imported groups: obligation groups of ANOTHER property's specification that this property also rests on (same spec files, same weaving,
+    # run in their own scratch sub-directory); their obligations are reported under '<prop>.<group>'
+    for imp in getattr(mod, 'IMPORTS', []):
+        specdir2, mod2 = load_spec(imp['prop'])
+        scratch2 = os.path.join(scratch, 'imp_' + imp['prop'])
+        os.makedirs(scratch2, exist_ok=True)
+        stack2 = getattr(mod2, 'STACK', DEFAULT_STACK)
+        census2 = do_weave(specdir2, mod2, scratch2, stack2)
+        for k, v in census2.items():
+            census.setdefault(k, v)
+        for g in mod2.GROUPS:
+            if g.get('name') in imp['groups'] and g.get('kind') != 'lemmas' and (tier == 'thorough' or not g.get('thorough_only')):
+                e = dict(g)
+                e['name'] = '%s.%s' % (imp['prop'], g['name'])
+                e['_specdir'], e['_scratch'], e['_stack'] = specdir2, scratch2, stack2
+                expanded.append(e)
     if only:
         expanded = [g for g in expanded if any(g['name'] == o or g['name'].startswith(o + '.') for o in only)]
     static_facts = []
@@ -437,7 +453,7 @@ def run_property(pid, tier, flags, only, scratch, t0, seed, evidence_path):
         static_facts = mod.static_facts(REPO, scratch)
     results = []
     with cf.ThreadPoolExecutor(max_workers=int(os.environ.get('VERIF_JOBS', '14'))) as ex:
-        futs = [ex.submit(run_group, pid, specdir, g, scratch, tier, stack) for g in expanded]
+        futs = [ex.submit(run_group, pid, g.get('_specdir', specdir), g, g.get('_scratch', scratch), tier, g.get('_stack', stack)) for g in expanded]
         for f in futs:
             results.append(f.result())
     gmap = {g['name']: g for g in expanded}
@@ -545,7 +561,8 @@ def run_property(pid, tier, flags, only, scratch, t0, seed, evidence_path):
                 lines.append('VIOLATION property=%s replay=none obligation="%s" no-failing-input-found' % (pid, o['key']))
                 replay_files.append(dict(path='none', reproduced=False))
                 continue
-            rf = make_replay(pid, specdir, gmap.get(o['group']), o, scratch, tier, stack)
+            gg = gmap.get(o['group']) or {}
+            rf = make_replay(pid, gg.get('_specdir', specdir), gmap.get(o['group']), o, gg.get('_scratch', scratch), tier, gg.get('_stack', stack))
             replay_files.append(rf)
             suffix = '' if rf['reproduced'] else ' no-failing-input-found'
             lines.append('VIOLATION property=%s replay=%s obligation="%s"%s' % (pid, rf['path'], o['key'], suffix))
